@@ -341,6 +341,9 @@ def _configs(tier):
     add('W3 N3 extra1 kill1', W=(1, 2, 3), n=3)
     add('W3 N1 extra1 bad{1,2}', W=(1, 2, 3), n=1, bad=(1, 2), kills=0)       # fewer inputs than worker slots: untouched idle workers
     add('W3 N2 extra0 bad{1} kill1', W=(1, 2, 3), n=2, extra=0, bad=(1,))
+    # a worker that answers, then dies on a poison input, is offered its next input while it is dying (BrokenPipe, still alive)
+    # and a healthy worker finishes the run: the input whose enqueue failed must not get lost
+    add('W2 N5 extra1 poison{4}', n=5, poison=(4,), kills=0)
     # return_results=False (results only through the callback) and a per-worker input callable as second source
     add('W2 N3 extra1 poison{2} kill1 return_results=False', poison=(2,), retres=False)
     add('W2 N3 extra1 poison{2} kill1 per-worker callable', poison=(2,), callsrc=True)
